@@ -16,9 +16,9 @@ DESIGN_REF = "§5 C02"
 RULE = ("case = generated program (fan / wait families) + schedule; distinct = tick-order signature hash; non-trivial = at least one event "
         "routed to >=2 steps, or a targeted / waiter / unhandled delivery occurred")
 REQUIRED_REACH = ["route_eval", "conservation_eval", "body_entry_eval", "waiter_delivery", "targeted_delivery", "unhandled_expected",
-                  "family_fan", "family_wait"]
+                  "family_fan", "family_wait", "family_syncfan"]
 ASSUMPTIONS = ["collecting / waiting steps are exempt from the exactly-once body-entry count (re-runs are legal); C09/C10 cover them"]
-FAMILIES = [("fan", 3), ("wait", 2), ("waitsink", 1)]
+FAMILIES = [("fan", 3), ("wait", 2), ("waitsink", 1), ("syncfan", 1)]
 
 
 def plan(tier, seed):
